@@ -223,6 +223,8 @@ pub struct Segments;
 const SEGMENTS_STREAM_LEN: usize = 468;
 /// ... and of the short session in which the server closes right behind OpenOk.
 const SEGMENTS_CLOSING_LEN: usize = 175;
+/// ... and of the session with two violating frames behind OpenOk.
+const SEGMENTS_EARLY2_LEN: usize = 190;
 
 impl Scenario for Segments {
     fn name(&self) -> &'static str {
@@ -257,6 +259,12 @@ impl Scenario for Segments {
         for k in 1..SEGMENTS_CLOSING_LEN {
             v.push(json!({"cuts": [k], "closing": true}));
         }
+        // a third one: two frames behind OpenOk that are both violations, of different kinds (the
+        // first decides how the connection ends, however the burst is cut)
+        v.push(json!({"cuts": [], "early2": true}));
+        for k in 1..SEGMENTS_EARLY2_LEN {
+            v.push(json!({"cuts": [k], "early2": true}));
+        }
         v
     }
     fn bound(&self, tier: &str, p: &Value) -> usize {
@@ -279,6 +287,10 @@ impl Scenario for Segments {
         ];
         if closing {
             behind.push(conn_close_frame(320, "going down"));
+        }
+        if p["early2"] == true {
+            behind.push(AMQPFrame::Method(1, AMQPClass::Tx(tx::AMQPMethod::SelectOk(tx::SelectOk {}))));
+            behind.push(header(0, 1, false));
         }
         hs.after_open = vh::sim::broker::Stage::Frames(behind, false);
         let mut broker = StdBroker::new(hs);
@@ -348,6 +360,16 @@ impl Scenario for Segments {
     fn check(&self, p: &Value, o: &Outcome, _w: &World) -> Vec<(String, String)> {
         let mut v = Vec::new();
         let main = o.logs.get("main").cloned().unwrap_or_default();
+        if p["early2"] == true {
+            // the unimplemented method comes first: ClientException, Connection.Close(540) last
+            let ok_log = main.last().map(|l| l == "close -> Err(ClientException)").unwrap_or(false) || main == vec!["open -> Err(ClientException)".to_string()];
+            let (envs, _) = wire_frames(o);
+            let ok_wire = matches!(envs.last().and_then(|e| e.decode()), Some(AMQPFrame::Method(0, AMQPClass::Connection(pconnection::AMQPMethod::Close(c)))) if c.reply_code == 540);
+            if !ok_log || !ok_wire {
+                v.push(("segments:early-violations".into(), format!("server stream cut at {:?}: observed {:?}; last frame written is Connection.Close(540): {}", p["cuts"], main, ok_wire)));
+            }
+            return v;
+        }
         if p["closing"] == true {
             // whether the open itself already fails or the first call does depends on what had
             // arrived when OpenOk was seen; the cause must be the server's close either way, and
